@@ -964,10 +964,22 @@ class Index(IndexBase):
             return key
 
         if self._map is None and offset is not None: # loc_is_iloc
+            # NOTE: labels are the positions within this index; the offset places this index in a larger sequence, so a key must be resolved against the labels held here before it is shifted
+            size = self.__len__()
             if key.__class__ is slice:
                 if key == NULL_SLICE:
-                    return slice(offset, self.__len__() + offset)
-                return slice_to_inclusive_slice(key, offset) #type: ignore
+                    return slice(offset, size + offset)
+                for attr in (key.start, key.stop): #type: ignore
+                    if attr is not None and not self.__contains__(attr):
+                        # as with a label map: an endpoint has to be a label of this index
+                        raise LocInvalid('Invalid loc given in a slice', key)
+                positions = range(*slice_to_inclusive_slice(key).indices(size)) #type: ignore
+                if not len(positions):
+                    return EMPTY_SLICE
+                stop = positions[-1] + offset + (1 if positions.step > 0 else -1)
+                return slice(positions[0] + offset,
+                        None if stop < 0 else stop,
+                        positions.step)
 
             if key.__class__ is np.ndarray:
                 # PERF: isolate for usage of _positions
@@ -978,11 +990,23 @@ class Index(IndexBase):
                     return self._positions[key] + offset
                 if key.dtype != DTYPE_INT_DEFAULT: #type: ignore
                     key = key.astype(DTYPE_INT_DEFAULT) #type: ignore
+                held = (key >= 0) & (key < size) #type: ignore
+                if partial_selection:
+                    return key[held] + offset #type: ignore
+                if not held.all():
+                    raise KeyError(key)
                 return key + offset
 
             if isinstance(key, list):
-               return [k + offset for k in key]
+                if partial_selection:
+                    return [k + offset for k in key if self.__contains__(k)]
+                for k in key:
+                    if not self.__contains__(k):
+                        raise KeyError(k)
+                return [k + offset for k in key]
             # a single element
+            if not self.__contains__(key):
+                raise KeyError(key)
             return key + offset # type: ignore
 
         if key_transform:
